@@ -1320,6 +1320,12 @@ class Interp:
     def call(self, f, args, kwargs=None, node=None):
         kwargs = kwargs or {}
         if isinstance(f, InterpFunction):
+            c = self.reg.by_nested.get(f.qualname) if self.reg.by_nested else None
+            if c is not None and self.reg.under_proof != ('nested', f.qualname) and c.use_contract_at(self, args, kwargs):
+                from .contracts import _apply
+                if f.is_async:
+                    return CoroVal(lambda: _apply(self, c, f, args, kwargs, node), f.qualname)
+                return _apply(self, c, f, args, kwargs, node)
             return self.invoke(f, args, kwargs, node)
         if isinstance(f, BoundMethod):
             if isinstance(f.fn, tuple):
@@ -1336,11 +1342,11 @@ class Interp:
         return models.call_builtin(self, f, args, kwargs, node)
 
     def call_real(self, fn, args, kwargs, node):
-        c = self.reg.lookup(fn)
-        top = self.call_stack[0] if self.call_stack else None
-        if c is not None and not (self.reg.under_proof is fn and not self.call_stack) and c.use_contract_at(self, args, kwargs):
-            from .contracts import apply_contract
-            return apply_contract(self, c, fn, args, kwargs, node)
+        if not (self.reg.under_proof is fn and not self.call_stack):
+            for c in self.reg.candidates(fn):
+                if c.use_contract_at(self, args, kwargs):
+                    from .contracts import apply_contract
+                    return apply_contract(self, c, fn, args, kwargs, node)
         from . import models
         m = models.REAL_FUNCTION_MODELS.get(fn)
         if m is not None:
